@@ -551,6 +551,12 @@ fn gen_ease(r: &mut Rng, n: usize, out: &mut dyn Write) {
             }
         }
     }
+    // every easing from eight threads at once: an easing is a pure function of x, whoever else is evaluating it
+    for name in &all {
+        let xs: Vec<f32> = (0..8).map(|k| if k < 2 { r.unit_f32() } else { r.below(1025) as f32 / 1024.0 }).collect();
+        writeln!(out, "easepar {} {}", name, xs.iter().map(|x| b(*x)).collect::<Vec<_>>().join(" ")).unwrap();
+        writeln!(out, "# expect C13 1 8=0").unwrap();
+    }
     // parameterised custom easings, created and dropped op by op: the next one starts at the x the last one ended with
     for k in 0..12 {
         let xs: Vec<f32> = (0..4).map(|_| r.below(1025) as f32 / 1024.0).collect();
